@@ -276,7 +276,28 @@ def strip_deep(t):
     t = strip(t)
     k = t[0]
     if k == "field":
-        return ("field", strip_deep(t[1]), t[2], t[3] if len(t) > 3 else None)
+        base = strip_deep(t[1])
+        name = str(t[2])
+        # a projection of a literal aggregate is the component itself: `(a, b).0`, `Some(v)↓Some.0`, and — by the
+        # contract of `?` — `Try::branch(Ok(v))↓Continue.0`
+        if base[0] == "agg" and base[1] == "tuple" and not base[2]:
+            for f, v in base[3]:
+                if str(f) == name:
+                    return v
+        if base[0] == "variant":
+            inner = base[1]
+            if inner[0] == "agg" and inner[2] == base[2]:
+                for f, v in inner[3]:
+                    if str(f) == name:
+                        return v
+            if inner[0] == "call" and name == "0" and base[2] == "Continue" and len(inner[2]) == 1 and \
+                    (inner[3] or {}).get("name") == "branch" and ((inner[3] or {}).get("trait") or "").endswith("ops::Try"):
+                a = inner[2][0]
+                if a[0] == "agg" and a[2] in ("Ok", "Some"):
+                    for f, v in a[3]:
+                        if str(f) == "0":
+                            return v
+        return ("field", base, t[2], t[3] if len(t) > 3 else None)
     if k == "variant":
         return ("variant", strip_deep(t[1]), t[2])
     if k == "index":
